@@ -849,8 +849,11 @@ impl<K: KeyT, V: ValT> MapHarness<K, V> {
                 sut.model.clear();
             }
             MapOp::CloneDrop => {
+                let c0 = env::clone_count();
                 sut.aux = Some(sut.map.clone());
                 let cl = sut.aux.take().unwrap();
+                // every key and every value of the copy was made by the element type's own Clone
+                chk!(c, !K::CLONE_IS_USER_CODE || env::clone_count() - c0 == 2 * sut.model.len() as u64, "clone() of {} entries called Clone::clone {} times, expected {}", sut.model.len(), env::clone_count() - c0, 2 * sut.model.len());
                 chk!(c, cl == sut.map && sut.map == cl, "clone() does not compare equal to its source");
                 let mut got: Vec<ModelEntry> = cl.iter().map(|(k, v)| (k.id(), k.tok(), v.tok())).collect();
                 got.sort_unstable();
@@ -883,8 +886,10 @@ impl<K: KeyT, V: ValT> MapHarness<K, V> {
                     }
                 }
                 sut.aux = Some(tgt);
+                let c0 = env::clone_count();
                 sut.aux.as_mut().unwrap().clone_from(&sut.map);
                 let tgt = sut.aux.take().unwrap();
+                chk!(c, !K::CLONE_IS_USER_CODE || env::clone_count() - c0 == 2 * len as u64, "clone_from of {len} entries called Clone::clone {} times, expected {}", env::clone_count() - c0, 2 * len);
                 chk!(c, tgt == sut.map && sut.map == tgt, "clone_from result does not compare equal to its source");
                 let old = std::mem::replace(&mut sut.map, tgt);
                 drop(old);
